@@ -40,7 +40,7 @@ def _tests(wt):
 
 
 def _demo(wt, demo):
-    env = dict(os.environ, PYTHONPATH=wt, TERM="xterm-256color")
+    env = dict(os.environ, PYTHONPATH=wt, CURTSIES_REPO=wt, TERM="xterm-256color")
     r = subprocess.run([PY, demo], cwd=os.path.dirname(demo), env=env, capture_output=True, text=True, timeout=300)
     return r.returncode, (r.stdout + r.stderr)[-600:]
 
